@@ -172,7 +172,7 @@ func HarnessC19Positions() {
 	want, wok := c19Compose(chain, AsValue(v))
 	verifAssume(wok)
 	e := c19Expr("v", chain)
-	pos := verifChoice(12)
+	pos := verifChoice(13)
 	verifObserve("pos", pos)
 	verifObserve("expr", e)
 	var src, exp string
@@ -200,6 +200,10 @@ func HarnessC19Positions() {
 		lit, ok := c19Compose(chain, AsValue("Li"))
 		verifAssume(ok)
 		src, exp = "{{ "+c19Expr("\"Li\"", chain)+" }}", lit
+	case 12: // item of an in-template list
+		src = "{{ [" + e + ", w, w|upper]|join:\"|\" }}"
+		up, _ := ApplyFilter("upper", AsValue(w), nil)
+		exp = want + "|" + w + "|" + up.String()
 	case 11: // subscript position: the filtered value selects the element
 		cv := AsValue(v)
 		for _, st := range chain {
